@@ -97,21 +97,45 @@ class Seq(_Cell):
 
 
 class Map(_Cell):
-    """dict: shape of the values."""
+    """dict: shape of the values; values stored under constant keys are kept apart (record-like dicts)."""
 
     def __init__(self, val=BOT):
-        self.x, self.fwd = val, None
+        self.x, self.fwd, self.fields = val, None, {}
 
     @property
     def val(self):
-        return self.find().x
-
-    def add(self, v, depth=0):
         c = self.find()
-        c.x = join(c.x, v, depth + 1)
+        return _joinall([c.x] + list(c.fields.values()))
+
+    def add(self, v, depth=0, key=None):
+        c = self.find()
+        if isinstance(key, Const) and isinstance(key.value, (str, int, bool, type(None))):
+            k = (type(key.value).__name__, key.value)
+            c.fields[k] = join(c.fields.get(k, BOT), v, depth + 1)
+        else:
+            c.x = join(c.x, v, depth + 1)
+
+    def at(self, key):
+        """shape of ``d[key]``"""
+        c = self.find()
+        if isinstance(key, Const) and isinstance(key.value, (str, int, bool, type(None))):
+            k = (type(key.value).__name__, key.value)
+            return join(c.fields.get(k, BOT), c.x)
+        return self.val
+
+    def merge(self, other, depth=0):
+        """everything stored in ``other`` is stored here as well"""
+        c, o = self.find(), other.find()
+        if c is o:
+            return
+        c.x = join(c.x, o.x, depth + 1)
+        for k, v in list(o.fields.items()):
+            c.fields[k] = join(c.fields.get(k, BOT), v, depth + 1)
 
     def __repr__(self):
-        return f"Map({_r(self.val)})"
+        c = self.find()
+        f = ", ".join(f"{k[1]!r}: {_r(v)}" for k, v in c.fields.items())
+        return f"Map({_r(c.x)}{'; ' + f if f else ''})"
 
 
 class Tup(V):
@@ -146,14 +170,15 @@ class Param(V):
 
 
 class Inst(V):
-    """``self`` of a method: instance of a repository class."""
-    __slots__ = ("module", "clsq")
+    """Instance of a repository class: ``self`` of a method (attributes unknown) or an object built by an evaluated
+    constructor call (``attrs``: Map of what was stored in its attributes)."""
+    __slots__ = ("module", "clsq", "attrs")
 
-    def __init__(self, module, clsq):
-        self.module, self.clsq = module, clsq
+    def __init__(self, module, clsq, attrs=None):
+        self.module, self.clsq, self.attrs = module, clsq, attrs
 
     def __repr__(self):
-        return f"Inst({self.clsq})"
+        return f"Inst({self.clsq}{', ' + _r(self.attrs) if self.attrs is not None else ''})"
 
 
 class Cls(V):
@@ -245,17 +270,29 @@ def join(a, b, depth=0):
     if isinstance(a, Tup) and isinstance(b, Seq):
         b.add(_joinall(a.items, depth + 1), depth)
         return b
-    if (isinstance(a, Seq) and isinstance(b, Seq)) or (isinstance(a, Map) and isinstance(b, Map)):
+    if isinstance(a, Seq) and isinstance(b, Seq):
         ax, bx = a.x, b.x
         b.fwd = a           # unify first: cyclic structures terminate
         a.x = join(ax, bx, depth + 1)
+        return a
+    if isinstance(a, Map) and isinstance(b, Map):
+        bx, bf = b.x, dict(b.fields)
+        b.fwd = a
+        a.x = join(a.x, bx, depth + 1)
+        for k, v in bf.items():
+            # a key that only one side has may be absent: the other side contributes what it stores under unknown keys
+            a.fields[k] = join(a.fields.get(k, BOT), v, depth + 1)
         return a
     if isinstance(a, Fn) and isinstance(b, Fn):
         return a if a.node is b.node else TOP
     if isinstance(a, Param) and isinstance(b, Param):
         return a if a.fn is b.fn and a.name == b.name else TOP
     if isinstance(a, Inst) and isinstance(b, Inst):
-        return a if a.clsq == b.clsq and a.module is b.module else TOP
+        if not (a.clsq == b.clsq and a.module is b.module):
+            return TOP
+        if a.attrs is None or b.attrs is None:
+            return a if a.attrs is None else b
+        return Inst(a.module, a.clsq, join(a.attrs, b.attrs, depth + 1))
     if isinstance(a, (Cls, Mod, Bi)) and type(a) is type(b):
         return a if repr(a) == repr(b) else TOP
     return TOP
@@ -289,11 +326,15 @@ def fresh(v, memo=None):
         c = type(v)()
         memo[id(v)] = c
         c.x = fresh(v.x, memo)
+        if isinstance(v, Map):
+            c.fields = {k: fresh(x, memo) for k, x in v.fields.items()}
         return c
     if isinstance(v, Tup):
         return Tup(fresh(x, memo) for x in v.items)
     if isinstance(v, View):
         return Seq(fresh(v.elem, memo))
+    if isinstance(v, Inst) and v.attrs is not None:
+        return Inst(v.module, v.clsq, fresh(v.attrs, memo))
     if isinstance(v, Mark):
         if v.dirty:
             return TOP
@@ -306,6 +347,9 @@ def key_of(v, depth=0):
         return "..."
     if isinstance(v, _Cell):
         v = v.find()
+        if isinstance(v, Map) and v.fields:
+            f = ",".join(f"{k[1]!r}:{key_of(x, depth + 1)}" for k, x in sorted(v.fields.items(), key=repr))
+            return f"Map({key_of(v.x, depth + 1)};{f})"
         return f"{type(v).__name__}({key_of(v.x, depth + 1)})"
     if isinstance(v, Tup):
         return "Tup(" + ",".join(key_of(x, depth + 1) for x in v.items) + ")"
@@ -313,6 +357,8 @@ def key_of(v, depth=0):
         return f"Seq({key_of(v.elem, depth + 1)})"
     if isinstance(v, Param):
         return f"Param({id(v.fn)},{v.name})"
+    if isinstance(v, Inst):
+        return f"Inst({v.clsq},{key_of(v.attrs, depth + 1) if v.attrs is not None else '-'})"
     if isinstance(v, Fn):
         return f"Fn({id(v.node)})"
     return repr(v)
@@ -467,7 +513,10 @@ class Flow:
             v = self.ev(s.value, fr)
             cur = self.ev(_load(s.target), fr)
             if isinstance(cur, (Seq, Map)) and isinstance(s.op, (ast.Add, ast.BitOr)):
-                cur.add(elem_of(v) if isinstance(cur, Seq) else (v.val if isinstance(v, Map) else TOP))
+                if isinstance(cur, Map) and isinstance(v, Map):
+                    cur.merge(v)
+                else:
+                    cur.add(elem_of(v) if isinstance(cur, Seq) else TOP)
             elif isinstance(cur, Mark):
                 cur.dirty = True
                 self.assign(s.target, TOP, fr)
@@ -599,14 +648,21 @@ class Flow:
                     self.assign(e, x, fr)
         elif isinstance(t, ast.Subscript):
             obj = self.ev(t.value, fr)
+            k = None
             if not isinstance(t.slice, ast.Slice):
-                self.ev(t.slice, fr)
+                k = self.ev(t.slice, fr)
             if isinstance(obj, _Cell):
+                obj = obj.find()
+            if isinstance(obj, Map):
+                obj.add(v, key=k)
+            elif isinstance(obj, _Cell):
                 obj.add(v if not isinstance(t.slice, ast.Slice) else elem_of(v))
             elif isinstance(obj, Mark):
                 obj.dirty = True
         elif isinstance(t, ast.Attribute):
-            self.ev(t.value, fr)
+            obj = self.ev(t.value, fr)
+            if isinstance(obj, Inst) and obj.attrs is not None:
+                obj.attrs.add(v, key=Const(t.attr))
         else:
             raise AnalysisError(f"shapeflow: assignment target {type(t).__name__} not modelled")
 
@@ -685,10 +741,12 @@ class Flow:
             for k, v in zip(n.keys, n.values):
                 x = self.ev(v, fr)
                 if k is None:
-                    m.add(x.val if isinstance(x, Map) else TOP)
+                    if isinstance(x, Map):
+                        m.merge(x)
+                    else:
+                        m.add(TOP)
                 else:
-                    self.ev(k, fr)
-                    m.add(x)
+                    m.add(x, key=self.ev(k, fr))
             return m
         if isinstance(n, (ast.ListComp, ast.SetComp, ast.GeneratorExp)):
             return Seq(self._comp(n.generators, fr, lambda: self.ev(n.elt, fr)))
@@ -743,7 +801,10 @@ class Flow:
             a, b = self.ev(n.left, fr), self.ev(n.right, fr)
             if isinstance(n.op, (ast.Add, ast.BitOr, ast.BitAnd, ast.Sub)):
                 if isinstance(a, Map) and isinstance(b, Map):
-                    return Map(join(a.val, b.val))
+                    m = Map()
+                    m.merge(fresh(a))
+                    m.merge(fresh(b))
+                    return m
                 if isinstance(a, (Seq, Tup)) and isinstance(b, (Seq, Tup)):
                     if isinstance(a, Tup) and isinstance(b, Tup) and isinstance(n.op, ast.Add):
                         return Tup(a.items + b.items)
@@ -760,12 +821,14 @@ class Flow:
             v = self.ev(n.value, fr)
             if isinstance(v, Mod):
                 return self.module_name(v.module, n.attr)
+            if isinstance(v, Inst) and v.attrs is not None and ("str", n.attr) in v.attrs.find().fields:
+                return v.attrs.at(Const(n.attr))
             if isinstance(v, (Cls, Inst)):
                 m = self.find_method(v.module, v.clsq, n.attr)
                 if m is not None:
                     decos = [U(d).split(".")[-1].split("(")[0] for d in m.decorator_list]
                     if "property" in decos or "cached_property" in decos:
-                        if isinstance(v, Inst) and self.relevant(m.name):
+                        if isinstance(v, Inst) and (v.attrs is not None or self.relevant(m.name)):
                             return self.call_fn(Fn(m, [], m._module, bound=v, clsq=m._cls), [], {}, None, fr, n)
                         return TOP
                     return Fn(m, [], m._module, bound=v if isinstance(v, Inst) and "staticmethod" not in decos else None,
@@ -821,7 +884,7 @@ class Flow:
         if isinstance(v, _Cell):
             v = v.find()
         if isinstance(v, Map):
-            return v.val
+            return v.at(k)
         if isinstance(v, Seq):
             return v if is_slice else v.elem
         if isinstance(v, View):
@@ -923,8 +986,43 @@ class Flow:
         if isinstance(fv, Bi):
             return self.builtin(fv.name, pos, kw, star, fr)
         if isinstance(fv, Cls):
-            return TOP
+            return self.construct(fv, pos, kw, star, fr, n)
         return TOP
+
+    def construct(self, c, pos, kw, star, fr, n):
+        """``C(...)`` of a repository class: an instance whose attribute stores are followed (``__init__`` is evaluated;
+        without one the annotated class-level fields are bound in order, as dataclasses / NamedTuples do)."""
+        if self.depth >= self.max_depth or c.clsq not in c.module.classes:
+            return TOP
+        obj = Inst(c.module, c.clsq, Map())
+        init = self.find_method(c.module, c.clsq, "__init__")
+        new = self.find_method(c.module, c.clsq, "__new__")
+        if init is None and new is not None:
+            return TOP
+        if init is None:
+            names = [st.target.id for st in c.module.classes[c.clsq].body
+                     if isinstance(st, ast.AnnAssign) and isinstance(st.target, ast.Name)]
+            vals = list(pos)
+            for k, name in enumerate(names):
+                if k < len(vals):
+                    obj.attrs.add(vals[k], key=Const(name))
+                elif name in kw:
+                    obj.attrs.add(kw[name], key=Const(name))
+                elif star is not None or "**" in kw:
+                    obj.attrs.add(TOP, key=Const(name))
+            return obj
+        key = ("init", id(init), id(n))
+        if key in self.active:
+            return TOP
+        self.active.add(key)
+        self.depth += 1
+        try:
+            args = self.bind(init, pos, kw, star, obj)
+            self._run(_Frame(init, [dict(args)], init._module, False, init._cls))
+        finally:
+            self.depth -= 1
+            self.active.discard(key)
+        return obj
 
     def bind(self, fnode, pos, kw, star, bound):
         a = fnode.args
@@ -1019,10 +1117,15 @@ class Flow:
                 a0 = pos[1] if len(pos) > 1 else None
             return Seq(elem_of(a0)) if a0 is not None else Seq()
         if short in ("dict", "OrderedDict"):
-            m = Map(_joinall([v for k, v in kw.items() if k != "**"]))
+            m = Map()
+            for k, v in kw.items():
+                if k == "**":
+                    m.add(v.val if isinstance(v, Map) else TOP)
+                else:
+                    m.add(v, key=Const(k))
             if a0 is not None:
                 if isinstance(a0, Map):
-                    m.add(a0.val)
+                    m.merge(fresh(a0))
                 else:
                     e = elem_of(a0)
                     m.add(e.items[1] if isinstance(e, Tup) and len(e.items) == 2 else (BOT if e is BOT else TOP))
@@ -1072,21 +1175,24 @@ class Flow:
             if attr == "keys":
                 return Seq(TOP)
             if attr in ("get", "pop"):
-                return join(o.val, a1 if a1 is not None else NONE)
+                return join(o.at(a0) if a0 is not None else o.val, a1 if a1 is not None else NONE)
             if attr == "setdefault":
-                o.add(a1 if a1 is not None else NONE)
-                return o.val
+                o.add(a1 if a1 is not None else NONE, key=a0)
+                return o.at(a0) if a0 is not None else o.val
             if attr == "update":
                 for x in ([a0] if a0 is not None else []):
                     if isinstance(x, _Cell):
                         x = x.find()
                     if isinstance(x, Map):
-                        o.add(x.val)
+                        o.merge(x)
                     else:
                         e = elem_of(x)
                         o.add(e.items[1] if isinstance(e, Tup) and len(e.items) == 2 else (BOT if e is BOT else TOP))
                 for k, v in kw.items():
-                    o.add(v if k != "**" else TOP)
+                    if k == "**":
+                        o.add(TOP)
+                    else:
+                        o.add(v, key=Const(k))
                 return NONE
             if attr == "copy":
                 return fresh(o)
